@@ -167,6 +167,15 @@ func (m *Machine) installExterns() {
 			m.call(a[0], nil, site)
 			return nil
 		},
+		"vSkipTables": func(m *Machine, a []value, site ssa.Instruction) value {
+			// cut: (*LunarYear).compute (the astronomy) is not executed inside f, so the year may stay symbolic;
+			// only the fields NewLunarYear sets itself (year, ganIndex, zhiIndex) are meaningful on the result
+			old := m.skipTables
+			m.skipTables = true
+			defer func() { m.skipTables = old }()
+			m.call(a[0], nil, site)
+			return nil
+		},
 		"vFork": func(m *Machine, a []value, site ssa.Instruction) value {
 			switch c := a[0].(type) {
 			case bool:
